@@ -66,6 +66,14 @@ func evalC03(op string, args []string) string {
 		if err != nil {
 			return "ok " + hx(rw) + " unparsable"
 		}
+		// … by a handler that, in every second case, has edited the request it was handed (stripped and added
+		// attributes): the reply answers the datagram that was received, whatever became of the Packet value
+		if (len(args[4])+len(args[6])+atoi(args[1]))%2 == 0 {
+			parsed.Attributes = append(radius.Attributes{&radius.AVP{Type: 33, Attribute: radius.Attribute("edited-by-the-handler")}}, parsed.Attributes...)
+			if len(parsed.Attributes) > 1 {
+				parsed.Attributes = parsed.Attributes[:len(parsed.Attributes)-1]
+			}
+		}
 		resp := parsed.Response(radius.Code(atoi(args[5])))
 		resp.Attributes = toAttributes(parseAVPs(args[6]))
 		w, err := resp.Encode()
